@@ -260,6 +260,17 @@ Proof.
   - apply ssub_union_inv in H as [H1 H2]. now rewrite IHp1, IHp2.
 Qed.
 
+(** [gpaths] enumerates exactly the outcomes of [grun] *)
+Lemma gpaths_grun p e : map snd (gpaths p e) = grun p e.
+Proof.
+  induction p; cbn [gpaths grun].
+  - reflexivity.
+  - destruct transmits; [|assumption].
+    rewrite map_app, !map_map. cbn [snd fst]. rewrite <- IHp, map_map, map_id. reflexivity.
+  - destruct (beval c e); assumption.
+  - rewrite map_app, !map_map. cbn [snd]. now rewrite <- IHp1, <- IHp2.
+Qed.
+
 Lemma forallb_pointwise {A} (f g : A -> bool) l :
   (forall x, f x = g x) -> forallb f l = forallb g l.
 Proof. intros H. induction l; cbn; [reflexivity|]. now rewrite H, IHl. Qed.
